@@ -273,8 +273,16 @@ def harness_build(ctx, cmdname=None):
         if not os.path.exists(dst_sum) or open(src_sum).read() != open(dst_sum).read():
             shutil.copy(src_sum, dst_sum)
         binp = os.path.join(HARNESS, "bin", cmdname)
+        modflags = []
+        if os.path.realpath(REPO) != "/repo":
+            # mutation testing against a scratch worktree (VERIF_REPO): same harness, other replace target
+            binp = os.path.join(ctx.scratch, "bin-" + cmdname)
+            mf = os.path.join(ctx.scratch, "alt.mod")
+            open(mf, "w").write(open(os.path.join(HARNESS, "go.mod")).read().replace("/repo/dnsrocks", os.path.join(os.path.realpath(REPO), "dnsrocks")))
+            shutil.copy(dst_sum, os.path.join(ctx.scratch, "alt.sum"))
+            modflags = ["-modfile=" + mf]
         tags = "verif" + ("," + ctx.prop.EXTRA_TAGS if getattr(ctx.prop, "EXTRA_TAGS", "") else "")
-        cmd = ["go", "build", "-tags", tags, "-ldflags=-checklinkname=0"] + \
+        cmd = ["go", "build", "-tags", tags, "-ldflags=-checklinkname=0"] + modflags + \
               list(getattr(ctx.prop, "BUILD_FLAGS", [])) + ["-o", binp, "./cmd/" + cmdname]
         t = time.time()
         rc, out = run(cmd, cwd=HARNESS, env=GOENV, timeout=1800)
